@@ -545,6 +545,22 @@ static void fam_codec(sw_t *sw, size_t len) {
         DI(sw, CALL(sw, sodium_base642bin(bin2, len, (const char *) mut, sl, ign2, &bl, &end, B64V[v]))); DI(sw, (long long) bl); DI(sw, end - (const char *) mut); D(sw, bin2, len);
         if (sl) mut[R(sw) % sl] = (unsigned char) R(sw);
         DI(sw, CALL(sw, sodium_base642bin(bin2, len, (const char *) mut, sl, ign2, &bl, NULL, B64V[v]))); DI(sw, (long long) bl); D(sw, bin2, len);
+        /* the padding region: every way of dropping '=' characters and mixing ignored characters into / after the padding,
+           in an exact-size block (b64_len is given; nothing after the block may be read) */
+        if (tl > 0 && b64[tl - 1] == '=') {
+            size_t npad = (tl > 1 && b64[tl - 2] == '=') ? 2 : 1, body = tl - npad, keep, j, form;
+            for (keep = 0; keep <= npad; keep++) for (j = 0; j <= 3; j++) for (form = 0; form < 3; form++) {
+                unsigned char tmp2[8200]; size_t o = 0, q;
+                if (body + 8 > sizeof tmp2) break;
+                memcpy(tmp2, b64, body); o = body;
+                if (form == 0) { for (q = 0; q < keep; q++) tmp2[o++] = '='; for (q = 0; q < j; q++) tmp2[o++] = (unsigned char) " \r\n"[q % 3]; }          /* pads then ignored */
+                else if (form == 1) { for (q = 0; q < j; q++) tmp2[o++] = (unsigned char) "\n \r"[q % 3]; for (q = 0; q < keep; q++) tmp2[o++] = '='; }     /* ignored then pads */
+                else { for (q = 0; q < keep; q++) { tmp2[o++] = '='; if (q < j) tmp2[o++] = '\n'; } }                                                    /* interleaved */
+                mut = AC(sw, tmp2, o); bl = 99;
+                DI(sw, CALL(sw, sodium_base642bin(bin2, len, (const char *) mut, o, ign2, &bl, &end, B64V[v]))); DI(sw, (long long) bl); DI(sw, end - (const char *) mut);
+                DI(sw, CALL(sw, sodium_base642bin(bin2, len, (const char *) mut, o, ign2, &bl, NULL, B64V[v]))); DI(sw, (long long) bl);
+            }
+        }
         /* the other alphabet's text under this variant */
         DI(sw, CALL(sw, sodium_base642bin(bin2, len, (const char *) tx, tl, NULL, &bl, &end, B64V[(v + 2) % 4]))); DI(sw, (long long) bl); DI(sw, end - (const char *) tx);
         E(sw);
